@@ -83,6 +83,16 @@ def entropy (E : Env α) (logN logCd dOverN : α) (X Xdist : List (List α)) (k 
     + sumL (idx.map (fun i => E.corr (centred E X i (nb i)) (offsets X i (nb i))))
         / E.cast X.length
 
+/-- `X - np.mean(X, axis=0)`: the first statement of `geometric_knn_entropy` since fix `dab500f`
+(the distance matrix `Xdist` is the caller's, computed from the un-centred sample) -/
+def centreAll (E : Env α) (X : List (List α)) : List (List α) :=
+  X.map (fun r => vsub r (colMean E X))
+
+/-- `geometric_knn_entropy(X, Xdist, k)` as the code now runs it: on the centred sample, with the
+caller's distance matrix. `CEProofs/C12.lean` (`entropyCode_eq`) proves it equal to `entropy`. -/
+def entropyCode (E : Env α) (logN logCd dOverN : α) (X Xdist : List (List α)) (k : Nat) : α :=
+  entropy E logN logCd dOverN (centreAll E X) Xdist k
+
 /-- `cdist(X, X, 'euclidean')` up to the order isomorphism `s ↦ √s`: squared Euclidean keys -/
 def sqKeys (X : List (List α)) : List (List α) :=
   X.map (fun xi => X.map (fun xj => sqdist xi xj))
